@@ -122,6 +122,20 @@ def compile_order(order: Order, name_in_df: dict[UUID, str]) -> tuple[pl.Expr, b
     )
 
 
+def polars_type(dtype: types.Dtype) -> pl.DataType | None:
+    # the polars type of a (possibly generic) parameter type; None for type variables / the null type
+    if isinstance(dtype, types.NullType) or isinstance(dtype, types.Tyvar):
+        return None
+    if type(dtype) is types.Int:
+        return pl.Int64()
+    if type(dtype) is types.Float:
+        return pl.Float64()
+    try:
+        return dtype.to_polars()
+    except Exception:
+        return None
+
+
 def compile_col_expr(
     expr: ColExpr,
     name_in_df: dict[UUID, str],
@@ -140,6 +154,9 @@ def compile_col_expr(
         args = [
             compiled.cast(pl.Float64())
             if types.without_const(param).is_float() and types.without_const(arg.dtype()).is_int() and not types.is_const(param)
+            # a null literal takes the type of its parameter (polars has no `abs`, `~`, `shift` ... for the Null dtype)
+            else compiled.cast(polars_type(types.without_const(param)))
+            if isinstance(types.without_const(arg.dtype()), types.NullType) and polars_type(types.without_const(param)) is not None
             else compiled
             for compiled, arg, param in zip(args, expr.args, itertools.chain(params, itertools.repeat(params[-1])), strict=False)
         ] if params else args
